@@ -124,8 +124,8 @@ let run_m hf fields memstr =
     print_pres mems (d_partition (merge h cfg) glen metas) ^ " ## " ^ print_pres mems (d_partition (explicit h cfg) glen metas)
   | _ -> failwith "bad header fields"
 
-(* H <op> <n> <mlinks> <nosize> <mbefore> <prio> <glen> <roots> <D hex|-> | <hmember> ; ...
-     hmember  <path> <dev> <ino> <atime|-> <btime|-> <ctime_s>,<ctime_ns> <m0> <r> <same_mount> <ops>
+(* H <op> <n> <mlinks> <nosize> <mbefore> <prio> <glen> <roots> [<npat>] <D hex|-> | <hmember> ; ...
+     hmember  <path> <dev> <ino> <atime|-> <btime|-> <ctime_s>,<ctime_ns> <m0> <r> <same_mount> [<kn> <kp> <dn> <dp> bits] <ops>
      ops      - | comma separated <t>:<kind>[:<arg>]   kinds: w:<hex> a:<hex> tr:<n> touch unlink re:<hex> nonreg dangling
    output:  F <node> <node> ... ## S <parts>      node = M | N | F:<hex|->:<mtime>   (state of each path at the dedupe run) *)
 let parse_data s = if s = "-" then [] else hex_to_bytes s
@@ -145,20 +145,26 @@ let parse_hop s =
 let run_h fields memstr =
   let parse_hm idx s =
     match split_ws s with
-    | [p; dev; ino; at; bt; ct; m0; r; sm; ops] ->
+    | [p; dev; ino; at; bt; ct; m0; r; sm; ops] | [p; dev; ino; at; bt; ct; m0; r; sm; _; _; _; _; ops] ->
+      let kn, kp, dn, dp = (match split_ws s with
+          | [_; _; _; _; _; _; _; _; _; a; b; c; d; _] -> a, b, c, d
+          | _ -> "-", "-", "-", "-") in
       let pth = parse_path p in
       let cs, cn = match split_on ',' ct with [a; b] -> z_of_int (ios a), z_of_int (ios b) | _ -> failwith "ctime" in
       let zo = opt (fun x -> z_of_int (ios x)) in
       let base = { mpath = pth; mdev = n_of_int (ios dev); mino = n_of_int (ios ino); mlen = N0; mfile = true;
                    mmtime = None; matime = zo at; mbtime = zo bt; mctime = (cs, cn) } in
-      ({ idx; pth; mt = Some base; kn = "-"; kp = "-"; dn = "-"; dp = "-"; sm = (sm = "1") },
+      ({ idx; pth; mt = Some base; kn; kp; dn; dp; sm = (sm = "1") },
        { hbase = base; hr = z_of_int (ios r); hm0 = z_of_int (ios m0); hops = parse_list parse_hop ops })
     | _ -> failwith ("bad hmember: " ^ s) in
   let both = List.mapi parse_hm (split_members memstr) in
   let mems = List.map fst both and hms = List.map snd both in
+  let fields = (match fields with
+      | [op; n; ml; ns; mb; pr; glen; roots; d] -> [op; n; ml; ns; mb; pr; glen; roots; "0,0,0,0"; d]
+      | f -> f) in
   match fields with
-  | [op; n; ml; ns; mb; pr; glen; roots; d] ->
-    let op, cfg, glen = parse_cfg mems [op; n; ml; ns; mb; pr; glen; roots; "0,0,0,0"] in
+  | [op; n; ml; ns; mb; pr; glen; roots; npat; d] ->
+    let op, cfg, glen = parse_cfg mems [op; n; ml; ns; mb; pr; glen; roots; npat] in
     let dd = parse_data d in
     let same_mount p _ = try (find_mem mems p).sm with Not_found -> false in
     let nodes = List.map (fun m -> match final dd m with
